@@ -579,6 +579,8 @@ package system
 //@   ensures d.l == dayLayout ==> res.Precision == dtpb.Date_DAY
 //@   ensures d.l == monthLayout ==> res.Precision == dtpb.Date_MONTH
 //@   ensures d.l == yearLayout ==> res.Precision == dtpb.Date_YEAR
+// the element's zone text is that of the Date's own time value (offset preserved)
+//@   ensures res.Timezone == tzS(d.date)
 //@ func DateTimeFromProto(proto) (res, err)
 //@   requires proto != nil
 //@   ensures err == nil ==> tInst(res.dateTime) == int(proto.ValueUs) * 1000
@@ -596,3 +598,5 @@ package system
 //@   ensures dt.l == dtDayLayout ==> res.Precision == dtpb.DateTime_DAY
 //@   ensures dt.l == dtMonthLayout ==> res.Precision == dtpb.DateTime_MONTH
 //@   ensures dt.l == dtYearLayout ==> res.Precision == dtpb.DateTime_YEAR
+// the element's zone text is that of the DateTime's own time value (offset preserved)
+//@   ensures res.Timezone == tzS(dt.dateTime)
